@@ -679,7 +679,7 @@ int main(int argc, char **argv)
         mc_meta("level", "model_checking");
         mc_meta("technique", "stateless deviation-bounded exploration (E1) of the real daemon main loop: every select() call is a scheduling point at which the explorer picks the next environment event; all schedules with <= B deviations from the canonical one are executed; frame ledger oracle independent of the daemon's bookkeeping");
         mc_meta("rule", "an execution = one complete schedule of (script, choice vector); states = executions run to completion, transitions = select() scheduling points executed; distinct = distinct ledger outcomes (who was owed / received which frame with which grant); phase stall: one execution per (buffers, clients, stall interval)");
-        mc_meta("bound", "B=%d deviations (one more on script 0; quick: B=3 on script 0, B=2 on the others) over %d scripts (2-3 clients, 4-5 frames; events RUN/DRAIN/PART/STEP/HALF/FRAME/SENDCAP); stall: 36 frames, -buffers {1,2}, 2-3 clients, every stall interval [a,b) on a grid", bound, NSCRIPTS);
+        mc_meta("bound", "B=%d deviations (one more on script 0; quick: B=3 on script 0, B=2 on the others) over %d scripts (2-3 clients, 4-5 frames; events RUN/DRAIN/PART/STEP/HALF/FRAME/SENDCAP); sched-thread: the same scripts with the acquisition thread variant (event ACQ = one iteration of the thread loop), B=%d; stall / stall-thread: 36 frames, -buffers {1,2}, 2-3 clients, every stall interval [a,b) on a grid, both capture variants", bound, NSCRIPTS, mc_tier == MC_THOROUGH ? 3 : 2);
         mc_meta("assume", "daemon explored in-process (daemon/proxyd.c #included), one device; phases sched/stall/conform: select() variant of the capture path; phase sched-thread: acquisition thread variant with the thread sequentialised (one iteration of its loop = one environment event at a select() of the main loop; start handshake, pipe wake-up, queue hand-over and stop by cancellation + cleanup handler are the daemon's code; interleavings inside a main loop round are not explored); clients are scripted protocol actors that follow the real library's RPC discipline (one request outstanding) over real AF_UNIX socketpairs; the real proxy-client.c is not on the other end");
         mc_meta("assume", "the simulated device grants requested & {TTX_B, VPS, CC625, WSS625} at every strictness; every frame carries lines of all four services");
 
